@@ -215,10 +215,19 @@ def check_request(cap: dict, x: dict, base_path: str = "/base") -> list:
         if bt == "files" and not b["parts"]:
             pass  # a multipart body without any part has nothing to transmit
         elif bt == "files":
-            if not ctype or not ctype.startswith("multipart/form-data; boundary="):
-                probs.append(("content_type:multipart", f"Content-Type {ctype!r} for a multipart body"))
+            parse_as = ctype
+            if b["media"].split(";")[0].strip().lower() != "multipart/form-data":
+                # a media type that content_type_overrides maps to multipart: encoded as multipart, sent as itself
+                m_ = re.match(rb"--([^\r\n]+)\r\n", content)
+                parse_as = f"multipart/form-data; boundary={m_.group(1).decode('ascii', 'replace')}" if m_ else None
+                if ctype != b["media"]:
+                    probs.append(("content_type:files", f"Content-Type {ctype!r} expected {b['media']!r} (overridden media type)"))
+                    parse_as = None
+            if not parse_as or not parse_as.startswith("multipart/form-data; boundary="):
+                if parse_as is ctype:
+                    probs.append(("content_type:multipart", f"Content-Type {ctype!r} for a multipart body"))
             else:
-                parts = parse_multipart(content, ctype)
+                parts = parse_multipart(content, parse_as)
                 for nm, spec in b["parts"].items():
                     got = parts.get(nm)
                     if not got:
